@@ -118,3 +118,50 @@ Definition beneathb (d p : str) : bool :=
   | Some (x :: r) => forallb normalb (x :: r)
   | _ => false
   end.
+
+(* ---------- the module root and the per-evaluation root cache ---------- *)
+(* Specification of "the module root of directory cur": the nearest directory,
+   walking up from cur, that holds go.mod (None: none up to "/").  It depends on
+   the file system only - not on what was resolved earlier in the evaluation. *)
+Inductive Root (gomod : str -> bool) : str -> option str -> Prop :=
+| root_here : forall cur, gomod cur = true -> Root gomod cur (Some cur)
+| root_none : forall cur, gomod cur = false -> str_eqb cur [47] = true -> Root gomod cur None
+| root_up : forall cur r, gomod cur = false -> str_eqb cur [47] = false ->
+    Root gomod (dir cur) r -> Root gomod cur r.
+
+(* pkg/ctxrootcache as used by findRootFromModule: LoadRoot(currentPath) first;
+   after a successful walk StoreRoot(p, root) for every directory p passed *)
+Definition root_cache := list (str * str).
+
+Fixpoint cache_load (c : root_cache) (d : str) : option str :=
+  match c with
+  | [] => None
+  | (d', r) :: t => if str_eqb d d' then Some r else cache_load t d
+  end.
+
+(* the walk, also returning the directories passed (start first) *)
+Fixpoint walk_root (fuel : nat) (gomod : str -> bool) (cur : str) (passed : list str)
+  : option (option str * list str) :=
+  match fuel with
+  | O => None
+  | S f =>
+      let passed' := passed ++ [cur] in
+      if gomod cur then Some (Some cur, passed')
+      else if str_eqb cur [47] then Some (None, passed')
+      else walk_root f gomod (dir cur) passed'
+  end.
+
+Definition find_root_cached (fuel : nat) (gomod : str -> bool) (c : root_cache) (cur : str)
+  : option (option str * root_cache) :=
+  match cache_load c cur with
+  | Some r => Some (Some r, c)
+  | None =>
+      match walk_root fuel gomod cur [] with
+      | None => None
+      | Some (Some root, passed) => Some (Some root, map (fun p => (p, root)) passed ++ c)
+      | Some (None, _) => Some (None, c)
+      end
+  end.
+
+Definition cache_sound (gomod : str -> bool) (c : root_cache) : Prop :=
+  forall d r, In (d, r) c -> Root gomod d (Some r).
